@@ -68,8 +68,8 @@ def gen_deflate(tier, rng):
     rnd = igz.corpus(rng, "random", 7100)
     for n in (range(1500, 3500) if tier == "quick" else range(1, 4200)):
         for level in ((1, 2, 3) if n % 2 == 0 else (1, 2)):
-            add(api="deflate", inp=rnd[:n], level=level, wrap=0, lbuf=0, mem=1, calls=[[n, n + 200, [0, 1, 2][n % 3], 1]], tail_ao=1 << 16, cap=40, meta={"family": "every-length-minimal-level-buffer"})
-            if n % 3 == 0:
+            add(api="deflate", inp=rnd[:n], level=level, wrap=0, lbuf=0, mem=1, calls=[[n, n + 200, [0, 1, 2][n % 3], 1]], tail_ao=1 << 16, cap=40, meta={"family": "every-length-minimal-level-buffer", "nodecode": n % 64 != 0})
+            if n % 24 == 0:
                 add(api="deflate_stateless", inp=rnd[:n], level=level, wrap=0, lbuf=0, mem=1, calls=[[n, n + 200, 0, 1]], meta={"family": "every-length-minimal-level-buffer"})
     return scns
 
@@ -105,7 +105,7 @@ def queued_lookahead_family(tier, rng, wd, first):
         base = cl[0]["c"] + 5 * ((x + 65534) // 65535) - BUF
         for j in range(-320, 16, 4 if tier == "quick" else 2):
             out.append(igz.scenario(first + len(out), "deflate", inp, level=3, wrap=0, lbuf=lb, mem=1, calls=[[len(inp), base + j, 0, 0], [0, 1 << 18, 0, 1]], tail_ao=1 << 18, cap=60,
-                                    meta={"family": "level3-look-ahead-queued-behind-a-stored-block"}))
+                                    meta={"family": "level3-look-ahead-queued-behind-a-stored-block", "nodecode": j % 32 != 0}))
     return out
 
 def gen_inflate(tier, rng):
